@@ -27,7 +27,8 @@ for sd in sorted(glob.glob(os.path.join(ROOT, "seeded", "C*"))):
         m = {}
     trial = open(os.path.join(sd, "trial.txt")).read() if os.path.exists(os.path.join(sd, "trial.txt")) else ""
     res = [l for l in trial.splitlines() if l.startswith("SEED-RESULT")]
-    last = res[-1] if res else ""
+    caught = [l for l in res if "check_exit=1" in l]
+    last = caught[0] if caught else (res[-1] if res else "")
     kv = dict(x.split("=") for x in last.split()[2:]) if last else {}
     files = ", ".join(os.path.basename(x) for x in m.get("files_touched", []))
     needs = str(m.get("needs_to_manifest", "")).replace("|", "\\|").replace("\n", " ")
@@ -37,4 +38,5 @@ for sd in sorted(glob.glob(os.path.join(ROOT, "seeded", "C*"))):
     if len(summ) > 160:
         summ = summ[:157] + "..."
     verdict = {"1": "VIOLATION (caught)", "0": "held (MISSED)", "2": "inconclusive"}.get(kv.get("check_exit", ""), "?")
-    print("| %s | %s (%s) | %s | %s / %s | %s |" % (pid, summ, files, needs, kv.get("demo_clean", "?"), kv.get("demo_patched", "?"), verdict))
+    chk = last.split()[2].split("=")[1] if last else "?"
+    print("| %s | %s (%s) | %s | %s / %s | `./check %s`: %s |" % (pid, summ, files, needs, kv.get("demo_clean", "?"), kv.get("demo_patched", "?"), chk, verdict))
